@@ -125,9 +125,11 @@ class AuthSession(object):
             response = self.io.recv_line()
         if response == b'*':
             raise AuthenticationCanceled()
+        if response == b'=':
+            return b''
         try:
-            return base64.b64decode(response)
-        except TypeError:
+            return base64.b64decode(response, validate=True)
+        except (TypeError, ValueError):
             raise InvalidAuthString()
 
     def server_attempt(self, arg):
